@@ -402,6 +402,44 @@ func (e *scEval) exec(list []ast.Stmt, stop func(ast.Stmt) bool) (rets []scVal, 
 		}
 		switch s := st.(type) {
 		case *ast.AssignStmt:
+			// before, after, found := strings.Cut(x, sep)
+			if len(s.Lhs) == 3 && len(s.Rhs) == 1 {
+				if call, ok := ast.Unparen(s.Rhs[0]).(*ast.CallExpr); ok && calleeName(e.info, call) == "strings.Cut" && len(call.Args) == 2 {
+					sepOK := false
+					if tv := e.info.Types[call.Args[1]]; tv.Value != nil && tv.Value.Kind() == constant.String && constant.StringVal(tv.Value) == e.sep {
+						sepOK = true
+					}
+					v := e.expr(call.Args[0])
+					if !sepOK || v.kind != 2 || v.hi != (lin{l: 1}) || v.lo.k != 0 || v.lo.l != 0 {
+						e.fail("strings.Cut is not applied to a suffix of the input with the separator %q", e.sep)
+						return nil, false, nil
+					}
+					if e.cs.offSet && e.cs.off != v.lo.c {
+						e.fail("two separator searches over different suffixes")
+						return nil, false, nil
+					}
+					e.cs.off, e.cs.offSet = v.lo.c, true
+					var before, after scVal
+					if e.cs.found && !(e.cs.empty && v.lo.c == 0) {
+						cut := v.lo.add(lin{k: 1})
+						before = scVal{kind: 2, lo: v.lo, hi: cut}
+						after = scVal{kind: 2, lo: cut.add(lin{c: len(e.sep)}), hi: v.hi}
+					} else {
+						before = v
+						after = scVal{kind: 3, lit: ""}
+					}
+					vals := []scVal{before, after, {kind: 4, b: e.cs.found}}
+					for i, l := range s.Lhs {
+						if id, ok := l.(*ast.Ident); ok && id.Name == "_" {
+							continue
+						}
+						if o := identObj(e.info, l); o != nil {
+							e.env[o] = vals[i]
+						}
+					}
+					continue
+				}
+			}
 			if len(s.Lhs) != len(s.Rhs) || (s.Tok != token.DEFINE && s.Tok != token.ASSIGN) {
 				e.fail("unsupported assignment form")
 				return nil, false, nil
